@@ -1,6 +1,8 @@
 // CON engine for C03: concurrent listener management and traversal on CallbackList / EventDispatcher
 // under the controlled scheduler; linearizability + traversal conditions + happens-before + drain.
 #include "con_common.h"
+#include <eventpp/hetercallbacklist.h>
+#include <eventpp/hetereventdispatcher.h>
 
 #include <set>
 #include <sstream>
@@ -15,7 +17,8 @@ enum OpKind { O_APPEND = 1, O_PREPEND = 2, O_INSERT = 3, O_REMOVE = 4, O_OWNS = 
 //            d = event key
 enum { U_TASKS = 0, U_PRE = 1, U_OBJ = 2, U_EVENTS = 3, U_PRESCRIPT = 4 /* bit pairs per pre-populated callback */,
 	U_WARP = 5 /* callback lists only: k + 1 = the generation counter is set k additions before its wrap before the tasks start (clock-jump fault) */ };
-enum { OBJ_LIST_MX = 0, OBJ_LIST_SPIN = 1, OBJ_DISP_MAP_MX = 2, OBJ_DISP_HASH_MX = 3, OBJ_DISP_MAP_SPIN = 4, OBJ_DISP_HASH_SPIN = 5, OBJ_KINDS = 6 };
+enum { OBJ_LIST_MX = 0, OBJ_LIST_SPIN = 1, OBJ_DISP_MAP_MX = 2, OBJ_DISP_HASH_MX = 3, OBJ_DISP_MAP_SPIN = 4, OBJ_DISP_HASH_SPIN = 5, OBJ_KINDS = 6,
+	OBJ_HLIST_MX = 6, OBJ_HLIST_SPIN = 7, OBJ_HDISP_MAP_MX = 8, OBJ_HDISP_HASH_MX = 9, OBJ_ALL_KINDS = 10 /* mode c03h: the heterogeneous classes */ };
 enum { MAXCB = 32, SCRIPT_CB_BASE = 16, T_FN = 1 };
 
 const char * opName(int k)
@@ -41,7 +44,7 @@ struct Counters
 {
 	uint64_t linChecked = 0, linOps = 0, linNodes = 0, travChecked = 0, travVisits = 0, overlapRuns = 0, warpedRuns = 0, foreignOwnsQueries = 0, removeRaces = 0, insertBeforeRemoved = 0,
 		travSteppedRemoved = 0, drainRemovals = 0, nestedOps = 0, linBudgetExhausted = 0, linSkippedTooLong = 0;
-	uint64_t perObj[OBJ_KINDS] = { 0, 0, 0, 0, 0, 0 };
+	uint64_t perObj[OBJ_ALL_KINDS] = { 0, 0, 0, 0, 0, 0, 0, 0, 0, 0 };
 } counters;
 
 // ------------------------------------------------------------------------------------------- adapters
@@ -88,6 +91,100 @@ struct DispObj
 	void invoke(int ev, int arg) { obj.dispatch(ev, arg); }
 	template <typename F> void forEach(int ev, F && f) { obj.forEach(ev, std::forward<F>(f)); }
 	template <typename F> bool forEachIf(int ev, F && f) { return obj.forEachIf(ev, std::forward<F>(f)); }
+};
+
+// The heterogeneous classes (mode c03h). Their own mutexes (callbackListListMutex guarding the lazily created per-prototype lists,
+// listenerMutex guarding the event map) and the map come from the policies and are simulated; the per-prototype lists inside are
+// CallbackLists with DEFAULT policies (hard-wired by the library), i.e. real std::mutex critical sections without a scheduling point in
+// them - each is one atomic step here. What the scheduler explores is the heterogeneous layer: lazy creation of a prototype's list
+// racing with its first uses, map insertion racing with lookups, handles crossing prototypes.
+// A model "event" e is a (key, prototype) pair: e = 0 -> (key 0, void (int)); 1 -> (key 0, void (int, Tag)); 2 -> (key 1, void (int)).
+struct Tag { explicit Tag() {} };
+struct Fn1
+{
+	Fn inner;
+	explicit Fn1(const Fn & f) : inner(f) {}
+	void operator() (int arg, Tag) const { inner(arg); }
+};
+using HProtos = eventpp::HeterTuple<void (int), void (int, Tag)>;
+
+template <typename Self, typename H>
+struct HeterEnum
+{
+	using Handle = H;
+	using Callback = std::function<void (int)>;
+	template <typename F> static void call(F & f, const Handle & h, const Callback & cb)
+	{
+		if constexpr(std::is_invocable_v<F &, const Handle &, const Callback &>) f(h, cb); else f(cb);
+	}
+	template <typename F> static bool callIf(F & f, const Handle & h, const Callback & cb)
+	{
+		if constexpr(std::is_invocable_v<F &, const Handle &, const Callback &>) return f(h, cb); else return f(cb);
+	}
+	static Callback unwrap(const std::function<void (int, Tag)> & cb)
+	{
+		const Fn1 * p = cb.template target<Fn1>();
+		return p ? Callback(p->inner) : Callback();
+	}
+};
+
+template <typename Pol>
+struct HeterListObj : HeterEnum<HeterListObj<Pol>, typename eventpp::HeterCallbackList<HProtos, Pol>::Handle>
+{
+	using CL = eventpp::HeterCallbackList<HProtos, Pol>;
+	using Handle = typename CL::Handle;
+	using Callback = std::function<void (int)>;
+	using E = HeterEnum<HeterListObj<Pol>, Handle>;
+	enum { heter = 1 };
+	CL obj;
+	Handle append(int e, const Fn & f) { return (e & 1) ? obj.append(Fn1(f)) : obj.append(f); }
+	Handle prepend(int e, const Fn & f) { return (e & 1) ? obj.prepend(Fn1(f)) : obj.prepend(f); }
+	Handle insert(int e, const Fn & f, const Handle & before) { return (e & 1) ? obj.insert(Fn1(f), before) : obj.insert(f, before); }
+	bool remove(int, const Handle & h) { return obj.remove(h); }
+	bool owns(int, const Handle &) { return false; }
+	bool isEmpty(int) { return obj.empty(); }   // of the whole object: used by the drain check only
+	void warp(unsigned) {}
+	void invoke(int e, int arg) { if(e & 1) obj(arg, Tag()); else obj(arg); }
+	template <typename F> void forEach(int e, F && f)
+	{
+		if(e & 1) obj.template forEach<void (int, Tag)>([&f](const Handle & h, const std::function<void (int, Tag)> & cb) { E::call(f, h, E::unwrap(cb)); });
+		else obj.template forEach<void (int)>(std::forward<F>(f));
+	}
+	template <typename F> bool forEachIf(int e, F && f)
+	{
+		if(e & 1) return obj.template forEachIf<void (int, Tag)>([&f](const Handle & h, const std::function<void (int, Tag)> & cb) -> bool { return E::callIf(f, h, E::unwrap(cb)); });
+		return obj.template forEachIf<void (int)>(std::forward<F>(f));
+	}
+};
+
+template <typename Pol>
+struct HeterDispObj : HeterEnum<HeterDispObj<Pol>, typename eventpp::HeterEventDispatcher<int, HProtos, Pol>::Handle>
+{
+	using D = eventpp::HeterEventDispatcher<int, HProtos, Pol>;
+	using Handle = typename D::Handle;
+	using Callback = std::function<void (int)>;
+	using E = HeterEnum<HeterDispObj<Pol>, Handle>;
+	enum { heter = 1 };
+	D obj;
+	static int key(int e) { return e >> 1; }
+	Handle append(int e, const Fn & f) { return (e & 1) ? obj.appendListener(key(e), Fn1(f)) : obj.appendListener(key(e), f); }
+	Handle prepend(int e, const Fn & f) { return (e & 1) ? obj.prependListener(key(e), Fn1(f)) : obj.prependListener(key(e), f); }
+	Handle insert(int e, const Fn & f, const Handle & before) { return (e & 1) ? obj.insertListener(key(e), Fn1(f), before) : obj.insertListener(key(e), f, before); }
+	bool remove(int e, const Handle & h) { return obj.removeListener(key(e), h); }
+	bool owns(int, const Handle &) { return false; }
+	bool isEmpty(int e) { return !obj.hasAnyListener(key(e)); }   // of the whole key: used by the drain check only
+	void warp(unsigned) {}
+	void invoke(int e, int arg) { if(e & 1) obj.dispatch(key(e), arg, Tag()); else obj.dispatch(key(e), arg); }
+	template <typename F> void forEach(int e, F && f)
+	{
+		if(e & 1) obj.template forEach<void (int, Tag)>(key(e), [&f](const Handle & h, const std::function<void (int, Tag)> & cb) { E::call(f, h, E::unwrap(cb)); });
+		else obj.template forEach<void (int)>(key(e), std::forward<F>(f));
+	}
+	template <typename F> bool forEachIf(int e, F && f)
+	{
+		if(e & 1) return obj.template forEachIf<void (int, Tag)>(key(e), [&f](const Handle & h, const std::function<void (int, Tag)> & cb) -> bool { return E::callIf(f, h, E::unwrap(cb)); });
+		return obj.template forEachIf<void (int)>(key(e), std::forward<F>(f));
+	}
 };
 
 // ------------------------------------------------------------------------------------------- harness
@@ -548,9 +645,10 @@ void generate(uint64_t seed, Plan & plan)
 {
 	Rng rng(seed);
 	con::chooseStrategy(rng, plan);
-	const int objKind = (int)rng.below(OBJ_KINDS);
-	const bool disp = objKind >= OBJ_DISP_MAP_MX;
-	const int nEvents = disp ? 2 + (int)rng.below(2) : 1;
+	const bool heter = mode == "c03h";
+	const int objKind = heter ? OBJ_HLIST_MX + (int)rng.below(OBJ_ALL_KINDS - OBJ_HLIST_MX) : (int)rng.below(OBJ_KINDS);
+	const bool disp = heter ? objKind >= OBJ_HDISP_MAP_MX : objKind >= OBJ_DISP_MAP_MX;
+	const int nEvents = heter ? (disp ? 3 : 2) : disp ? 2 + (int)rng.below(2) : 1;
 	const uint32_t tr = rng.below(100);
 	const int nTasks = tr < 50 ? 2 : tr < 85 ? 3 : 4;
 	const int pre = (int)rng.below(4);
@@ -564,7 +662,7 @@ void generate(uint64_t seed, Plan & plan)
 		prescript |= (r < 25 ? 1 : r < 35 ? 2 : 0) << (2 * cb);
 	}
 	plan.user(U_PRESCRIPT) = prescript;
-	plan.user(U_WARP) = (!disp && rng.chance(1, 5)) ? 1 + (int)rng.below(5) : 0;
+	plan.user(U_WARP) = (!heter && !disp && rng.chance(1, 5)) ? 1 + (int)rng.below(5) : 0;
 
 	int cbEvent[MAXCB];
 	for(int cb = 0; cb < pre; ++cb) cbEvent[cb] = cb % nEvents;
@@ -609,6 +707,8 @@ void generate(uint64_t seed, Plan & plan)
 				cbEvent[nextCb] = op.d;
 				++nextCb;
 			}
+			// the heterogeneous classes have no ownsHandle, and their emptiness queries span all prototypes: traversals instead
+			if(heter && (op.k == O_OWNS || op.k == O_EMPTY)) op = Op(op.k == O_OWNS ? O_INVOKE : O_FOREACH, (int)rng.below(100), 0, 0, (int)rng.below((uint32_t)nEvents));
 			plan.tasks[(size_t)t].push_back(op);
 		}
 	}
@@ -623,17 +723,22 @@ void execute(const Plan & plan, RunOut & out)
 	case OBJ_DISP_MAP_MX: runWith<DispObj<PolMapMx> >(plan, out); break;
 	case OBJ_DISP_HASH_MX: runWith<DispObj<PolHashMx> >(plan, out); break;
 	case OBJ_DISP_MAP_SPIN: runWith<DispObj<PolMapSpin> >(plan, out); break;
-	default: runWith<DispObj<PolHashSpin> >(plan, out); break;
+	case OBJ_DISP_HASH_SPIN: runWith<DispObj<PolHashSpin> >(plan, out); break;
+	case OBJ_HLIST_MX: runWith<HeterListObj<PolMx> >(plan, out); break;
+	case OBJ_HLIST_SPIN: runWith<HeterListObj<PolSpin> >(plan, out); break;
+	case OBJ_HDISP_MAP_MX: runWith<HeterDispObj<PolMapMx> >(plan, out); break;
+	default: runWith<HeterDispObj<PolHashMx> >(plan, out); break;
 	}
-	if(plan.user(U_OBJ) >= 0 && plan.user(U_OBJ) < OBJ_KINDS) ++counters.perObj[plan.user(U_OBJ)];
+	if(plan.user(U_OBJ) >= 0 && plan.user(U_OBJ) < OBJ_ALL_KINDS) ++counters.perObj[plan.user(U_OBJ)];
 }
 
 std::string describe(const Plan & plan)
 {
-	static const char * objNames[] = { "CallbackList/SimMutex", "CallbackList/SpinLock", "EventDispatcher/map/SimMutex", "EventDispatcher/unordered_map/SimMutex", "EventDispatcher/map/SpinLock", "EventDispatcher/unordered_map/SpinLock" };
+	static const char * objNames[] = { "CallbackList/SimMutex", "CallbackList/SpinLock", "EventDispatcher/map/SimMutex", "EventDispatcher/unordered_map/SimMutex", "EventDispatcher/map/SpinLock", "EventDispatcher/unordered_map/SpinLock",
+		"HeterCallbackList/SimMutex", "HeterCallbackList/SpinLock", "HeterEventDispatcher/map/SimMutex", "HeterEventDispatcher/unordered_map/SimMutex" };
 	std::ostringstream o;
 	const int k = plan.user(U_OBJ);
-	o << (k >= 0 && k < OBJ_KINDS ? objNames[k] : "?") << " pre=" << plan.user(U_PRE) << (plan.user(U_WARP) > 0 ? " wrap-in-" + std::to_string(plan.user(U_WARP) - 1) : std::string()) << " strat=" << plan.cfg[CFG_STRATEGY] << "/" << plan.cfg[CFG_DEPTH];
+	o << (k >= 0 && k < OBJ_ALL_KINDS ? objNames[k] : "?") << " pre=" << plan.user(U_PRE) << (plan.user(U_WARP) > 0 ? " wrap-in-" + std::to_string(plan.user(U_WARP) - 1) : std::string()) << " strat=" << plan.cfg[CFG_STRATEGY] << "/" << plan.cfg[CFG_DEPTH];
 	for(size_t t = 0; t < plan.tasks.size(); ++t) {
 		o << " | t" << t << ":";
 		for(size_t i = 0; i < plan.tasks[t].size(); ++i) {
@@ -659,7 +764,7 @@ void statsJson(std::string & out)
 	  << ",\"insert_before_concurrently_removed\":" << counters.insertBeforeRemoved << ",\"drain_removals\":" << counters.drainRemovals
 	  << ",\"nested_ops_from_callbacks\":" << counters.nestedOps << ",\"lin_search_budget_exhausted\":" << counters.linBudgetExhausted << ",\"lin_histories_too_long_skipped\":" << counters.linSkippedTooLong
 	  << ",\"mutex_contended\":" << probes().mutexContended << ",\"spin_contended\":" << probes().spinContended << "}"
-	  << ",\"per_object\":[" << counters.perObj[0] << "," << counters.perObj[1] << "," << counters.perObj[2] << "," << counters.perObj[3] << "," << counters.perObj[4] << "," << counters.perObj[5] << "]";
+	  << ",\"per_object\":[" << counters.perObj[0] << "," << counters.perObj[1] << "," << counters.perObj[2] << "," << counters.perObj[3] << "," << counters.perObj[4] << "," << counters.perObj[5] << "," << counters.perObj[6] << "," << counters.perObj[7] << "," << counters.perObj[8] << "," << counters.perObj[9] << "]";
 	out += o.str();
 }
 
